@@ -3,6 +3,11 @@ From Coq Require Import NArith List Bool Arith.
 Import ListNotations.
 From HV Require Export lib.Harness model.Types spec.TypesS.
 
+(* one entry of a history (see CSeq): same observations as CTy / CStatic *)
+Inductive step :=
+| STy (t : ty) (ob : option bound) (oopq : option (option bound)) (oser : option (list bound))
+| SStatic (elem : ty) (acc : option bool) (ob : option bound).
+
 Inductive case :=
 (* a type; observed: type_bound() (None = raised), the bound inside _to_opaque() (outer None = not an
    ExtType), the bounds of all serial Opaque records of _to_serial() in document order *)
@@ -10,7 +15,15 @@ Inductive case :=
 (* StaticArray(elem): accepted / ValueError / another exception; bound of the constructed type *)
 | CStatic (elem : ty) (acc : option bool) (ob : option bound)
 (* TypeBound.join of the list bs *)
-| CJoin (bs : list bound) (r : option bound).
+| CJoin (bs : list bound) (r : option bound)
+(* a history of ONE object graph: build, observe, change it through its public attributes (element
+   of a row / argument list assigned or appended, args / variant_rows / type_def / bound attribute
+   re-assigned, possibly on a copy.copy / copy.deepcopy of the root), observe again, ...  Every entry
+   is the type the object graph denotes AT THAT MOMENT (printed from the objects) with what the
+   implementation reported at that moment.  The property speaks about "the bound reported for any
+   type" and "the bound written into a serialized extension type": both are functions of the type's
+   current value, so every entry must satisfy exactly what a freshly built type satisfies. *)
+| CSeq (steps : list step).
 
 Definition ob_eqb := option_eqb bound_eqb.
 Definition opaque_bound (t : ty) : option bound :=
@@ -18,19 +31,27 @@ Definition opaque_bound (t : ty) : option bound :=
 Definition is_ext (t : ty) : bool := match t with TExt _ _ _ => true | _ => false end.
 
 (* the std StaticArray type as the constructor builds it, over whichever definition the harness read *)
+Definition corr_ty (t : ty) (ob : option bound) (oopq : option (option bound)) (oser : option (list bound)) : bool :=
+  ob_eqb ob (tbound t) &&
+  match oopq with
+  | Some o => is_ext t && ob_eqb o (opaque_bound t)
+  | None => negb (is_ext t)
+  end &&
+  option_eqb (list_eqb bound_eqb) oser (ser_bounds t).
+Definition corr_static (elem : ty) (acc : option bool) (ob : option bound) : bool :=
+  option_eqb Bool.eqb acc (static_array_accepts elem) &&
+  ob_eqb ob (match static_array_accepts elem with Some true => tbound elem | _ => None end).
+Definition corr_step (s : step) : bool :=
+  match s with
+  | STy t ob oopq oser => corr_ty t ob oopq oser
+  | SStatic elem acc ob => corr_static elem acc ob
+  end.
 Definition corr (c : case) : bool :=
   match c with
-  | CTy t ob oopq oser =>
-      ob_eqb ob (tbound t) &&
-      match oopq with
-      | Some o => is_ext t && ob_eqb o (opaque_bound t)
-      | None => negb (is_ext t)
-      end &&
-      option_eqb (list_eqb bound_eqb) oser (ser_bounds t)
-  | CStatic elem acc ob =>
-      option_eqb Bool.eqb acc (static_array_accepts elem) &&
-      ob_eqb ob (match static_array_accepts elem with Some true => tbound elem | _ => None end)
+  | CTy t ob oopq oser => corr_ty t ob oopq oser
+  | CStatic elem acc ob => corr_static elem acc ob
   | CJoin bs r => ob_eqb r (Some (join bs))
+  | CSeq steps => forallb corr_step steps
   end.
 
 (* ---- monitor: the specification (copy_b, wf_b of spec/TypesS.v) on the implementation's observations ---- *)
@@ -40,19 +61,28 @@ Definition mon_bound (t : ty) (ob : option bound) : bool :=
   | Some b => bound_eqb b (spec_bound t)        (* Copyable exactly when every constituent can be copied *)
   | None => negb (wf_b t)                       (* a bound is reported for every well-formed type *)
   end.
+Definition mon_ty (t : ty) (ob : option bound) (oopq : option (option bound)) (oser : option (list bound)) : bool :=
+  mon_bound t ob &&
+  match oopq with Some o => ob_eqb o ob | None => true end &&       (* written bound = computed bound *)
+  match oser with
+  | Some bs => list_eqb bound_eqb bs (map spec_bound (ser_exts t))
+  | None => negb (wf_b t)
+  end.
+Definition mon_static (elem : ty) (acc : option bool) (ob : option bound) : bool :=
+  match acc with
+  | Some a => Bool.eqb a (copy_b elem) && (if a then ob_eqb ob (Some Copyable) else true)
+  | None => negb (wf_b elem)
+  end.
+(* an entry of a history is judged by the type the objects denote at that moment, never by an earlier one *)
+Definition mon_step (s : step) : bool :=
+  match s with
+  | STy t ob oopq oser => mon_ty t ob oopq oser
+  | SStatic elem acc ob => mon_static elem acc ob
+  end.
 Definition mon (c : case) : bool :=
   match c with
-  | CTy t ob oopq oser =>
-      mon_bound t ob &&
-      match oopq with Some o => ob_eqb o ob | None => true end &&       (* written bound = computed bound *)
-      match oser with
-      | Some bs => list_eqb bound_eqb bs (map spec_bound (ser_exts t))
-      | None => negb (wf_b t)
-      end
-  | CStatic elem acc ob =>
-      match acc with
-      | Some a => Bool.eqb a (copy_b elem) && (if a then ob_eqb ob (Some Copyable) else true)
-      | None => negb (wf_b elem)
-      end
+  | CTy t ob oopq oser => mon_ty t ob oopq oser
+  | CStatic elem acc ob => mon_static elem acc ob
   | CJoin bs r => ob_eqb r (Some (if forallb (fun b => bound_eqb b Copyable) bs then Copyable else Any))
+  | CSeq steps => forallb mon_step steps
   end.
